@@ -17,6 +17,9 @@ NoteSpec(kind, ns, ds) ==
       [] kind = "nul"     -> [name |-> IF ns = 0 THEN <<>> ELSE Append(Fill(ns - 1, 64), 0), desc |-> Fill(ds, 200), type |-> 7]
       [] kind = "abitag"  -> [name |-> GNU, desc |-> Fill(16, 16), type |-> 1]
       [] kind = "buildid" -> [name |-> GNU, desc |-> Fill(ds, 100), type |-> 3]
+      \* the other note types of the GNU owner are plain notes to the crate: NT_GNU_HWCAP (2), NT_GNU_PROPERTY_TYPE_0 (5)
+      [] kind = "gnuhw"   -> [name |-> GNU, desc |-> Fill(ds, 100), type |-> 2]
+      [] kind = "gnuprop" -> [name |-> GNU, desc |-> Fill(ds, 100), type |-> 5]
 
 \* encode a sequence of note specs; returns [bytes, marks] with marks[i] = [nameStart, namesz, descStart, descsz]
 RECURSIVE EncFrom(_, _, _, _, _, _)
@@ -35,7 +38,7 @@ EncFrom(ns, i, a, little, bytes, marks) ==
                     Append(marks, [nameStart |-> nameStart, namesz |-> Len(n.name), descStart |-> descStart,
                                    descsz |-> Len(n.desc), type |-> n.type, fitEnd |-> Len(b4)]))
 
-Kinds == {"plain", "nul", "abitag", "buildid"}
+Kinds == {"plain", "nul", "abitag", "buildid", "gnuhw", "gnuprop"}
 VARIABLE c
 Lim(a) == IF a \in {0, 3, 5, 16} THEN 3 ELSE a + 1
 \* two stages so that TLC's workers share the enumeration: Init picks the shape, Next the sizes
@@ -47,7 +50,7 @@ Init ==
                 ns1 |-> 0, ds1 |-> 0, ns2 |-> 0, ds2 |-> 0, cut |-> 0, junk |-> 0]
 Next ==
     /\ c.stage = 1
-    /\ \E ns1 \in (IF c.n = 0 \/ c.k1 \in {"abitag", "buildid"} THEN {0} ELSE 0..Lim(c.a)),
+    /\ \E ns1 \in (IF c.n = 0 \/ c.k1 \in {"abitag", "buildid", "gnuhw", "gnuprop"} THEN {0} ELSE 0..Lim(c.a)),
           ds1 \in (IF c.n = 0 \/ c.k1 = "abitag" THEN {0} ELSE 0..Lim(c.a)),
           ns2 \in (IF c.n < 2 \/ c.k2 = "buildid" THEN {0} ELSE 0..Lim(c.a)),
           ds2 \in (IF c.n < 2 THEN {0} ELSE 0..Lim(c.a)),
